@@ -7,7 +7,7 @@ From stdpp Require Import gmap.
 From HV Require Import Evm.ExecModel Evm.JournalProofs Evm.SupplyProofs Evm.ConservationProofs.
 Local Open Scope Z_scope.
 
-Definition clean (W : world) (a : N) : obj := mkobj (zg (bank W) a) ∅ ∅ ∅ false.
+Definition clean (W : world) (a : N) : obj := clean_obj W a.
 
 (** [D'] is [D] plus clean loads of existing accounts *)
 Definition lz (W : world) (D D' : sdb) : Prop :=
